@@ -10,6 +10,7 @@ import (
 	"google.golang.org/grpc/status"
 	"google.golang.org/protobuf/types/known/fieldmaskpb"
 
+	"go.6river.tech/mmmbbb/filter"
 	"go.6river.tech/mmmbbb/grpc/pubsubpb"
 
 	"verif/harness/evd"
@@ -283,7 +284,7 @@ func TestC08rpc(t *testing.T) {
 	col := evd.New("C08", cfg)
 	defer col.Flush()
 	n := cfg.N(8, 200)
-	var accepted, rejected int64
+	var accepted, rejected, rawCompared int64
 	for i := 0; i < n; i++ {
 		seed := cfg.CaseSeed("C08rpc", i)
 		if !cfg.Want(i, seed) {
@@ -379,8 +380,49 @@ func TestC08rpc(t *testing.T) {
 				}
 				col.Case(evd.FP("rpc", text), !want)
 			}
+			// raw strings: sentences decorated with characters that are white space to
+			// some libraries but not to the filter lexer. No reference needed here: the
+			// RPCs must agree with the filter parser itself on the exact string, and a
+			// filter that was stored must parse
+			decor := []string{"\v", "\f", "\u0085", "\u00a0", "\u2028", "\u3000", "\ufeff", "\x00", " \u00a0 ", "\t", "\n", " "}
+			for k := 0; k < 40; k++ {
+				base := e2eAST(r, r.Intn(2)).String()
+				d := decor[r.Intn(len(decor))]
+				var text string
+				switch r.Intn(3) {
+				case 0:
+					text = d + base
+				case 1:
+					text = base + d
+				default:
+					text = d + base + d
+				}
+				_, perr := filter.Parser.ParseString("", text)
+				parses := perr == nil
+				name := fmt.Sprintf("projects/p/subscriptions/raw%d", k)
+				_, cerr := e.Sub.CreateSubscription(e.Ctx, &pubsubpb.Subscription{Name: name, Topic: topic, Filter: text})
+				_, uerr := e.Sub.UpdateSubscription(e.Ctx, &pubsubpb.UpdateSubscriptionRequest{Subscription: &pubsubpb.Subscription{Name: bare, Filter: text}, UpdateMask: &fieldmaskpb.FieldMask{Paths: []string{"filter"}}})
+				rawCompared++
+				for _, x := range []struct {
+					what, sub string
+					err       error
+				}{{"CreateSubscription", name, cerr}, {"UpdateSubscription", bare, uerr}} {
+					if (x.err == nil) != parses {
+						col.Violation("rpc-disagrees-with-parser:"+x.what, fmt.Sprintf("%s answered %v for the filter %q, which the filter parser itself %s", x.what, x.err, text, map[bool]string{true: "accepts", false: "rejects: " + fmt.Sprint(perr)}[parses]), map[string]any{"filter": text})
+					}
+					if g, gerr := e.Sub.GetSubscription(e.Ctx, &pubsubpb.GetSubscriptionRequest{Subscription: x.sub}); gerr == nil && g.Filter != "" {
+						if _, serr := filter.Parser.ParseString("", g.Filter); serr != nil {
+							col.Violation("stored-filter-does-not-parse", fmt.Sprintf("after %s(%q) the subscription carries the filter %q, which does not parse: %v", x.what, text, g.Filter, serr), map[string]any{"filter": text, "stored": g.Filter})
+						}
+					}
+				}
+				// back to unfiltered
+				e.Sub.UpdateSubscription(e.Ctx, &pubsubpb.UpdateSubscriptionRequest{Subscription: &pubsubpb.Subscription{Name: bare}, UpdateMask: &fieldmaskpb.FieldMask{Paths: []string{"filter"}}})
+				col.Case(evd.FP("rpc-raw", text), !parses)
+			}
 		})
 	}
+	col.Add("ev_rpc_raw_strings_compared_with_the_parser", rawCompared)
 	col.Add("ev_rpc_filters_accepted", accepted)
 	col.Add("ev_rpc_filters_rejected", rejected)
 	col.Add("relevant_events", accepted+rejected)
